@@ -69,26 +69,27 @@ def runs_for(tier):
                                                     KeyMode="all", ElemMode="all")),
             ("group_by 3 values, 3 keys", c(["group_by"], 2, 3, NVals=3, NKeys=3, LongLen=4)),
             ("partition* 3 values", c(["partition", "partition_indexed"], 2, 3, NVals=3, LongLen=4)),
-            ("group_by_until", c(["group_by_until"], 3, 3, H=5, DKinds={"N", "C"}, KeyMode="some3")),
-            ("group_by_until long", c(["group_by_until"], 2, 5, H=7, Durs={0, 1, 3}, ElemMode="none")),
+            ("group_by_until", c(["group_by_until"], 3, 3, H=5)),
+            ("group_by_until long", c(["group_by_until"], 2, 5, H=7, Durs={0, 1, 3}, DKinds={"N", "C"}, ElemMode="none",
+                                      KeyMode="some3")),
             ("group_by_until 3 keys", c(["group_by_until"], 3, 3, NVals=3, NKeys=3, KeyMode="some", ElemMode="none", Durs={1},
                                         Terms={"C", "U"})),
             ("faults group_by, partition*", c(["group_by", "partition", "partition_indexed"], 2, 2, LongLen=4, Faults=True,
                                               KeyMode="all", ElemMode="all")),
             ("faults group_by_until", c(["group_by_until"], 2, 2, H=4, Durs={1}, DKinds={"N", "E"}, Faults=True)),
             ("group_by_until content-dependent durations", c(["group_by_until"], 4, 3, Durs=set(), DCounts={1, 2, 3},
-                                                             KeyMode="some3")),
+                                                             ElemMode="none")),
             ("dispose", c(ALL, 2, 3, LongLen=3, H=5, Disposes=True))]
 
 
 def sampled_runs(tier):
     if tier == "quick":
         return []
-    big = dict(NVals=4, NKeys=3, Terms={"C", "E", "U"}, Durs={0, 1, 2, 3, 5}, DKinds={"N", "C"}, KeyMode="all", ElemMode="all",
-               Faults=False, Disposes=True, DCounts={1, 2, 3}, LongLen=9, MaxLen=7, MaxT=9, H=11)
-    out = [("sampled " + o, o, dict(big, Ops={o}), 3000) for o in ALL]
+    big = dict(NVals=4, NKeys=3, Terms={"C", "E", "U"}, Durs={1, 2, 3, 5}, DKinds={"N", "C"}, KeyMode="all", ElemMode="all",
+               Faults=False, Disposes=True, DCounts={1, 2, 3}, LongLen=9, MaxLen=5, MaxT=9, H=11)
+    out = [("sampled " + o, o, dict(big, Ops={o}), 1500) for o in ALL]
     out.append(("sampled faults group_by_until", "group_by_until", dict(big, Ops={"group_by_until"}, Faults=True,
-                                                                       DKinds={"N", "E"}), 3000))
+                                                                       DKinds={"N", "E"}), 1500))
     return out
 
 
